@@ -18,14 +18,14 @@ Proof.
 Qed.
 
 (** [q = 2^j]; [(f,l)] and [(f',l')] are the Fibonacci/Lucas pairs of index [j] and [j+1] *)
-Definition pinv (q f l f' l' : Z) : Prop :=
+Definition phi_inv (q f l f' l' : Z) : Prop :=
   0 < q /\ 0 <= f /\ 0 <= f' /\
   0 <= 2 * q - l /\ 5 * f * f <= (2 * q - l) * (2 * q - l) /\
   0 <= 4 * q - l' /\ 5 * f' * f' <= (4 * q - l') * (4 * q - l').
 
-Lemma pinv_step q f l f' l' : pinv q f l f' l' -> pinv (2 * q) f' l' (f + f') (l + l').
+Lemma phi_inv_step q f l f' l' : phi_inv q f l f' l' -> phi_inv (2 * q) f' l' (f + f') (l + l').
 Proof.
-  intros (Hq & Hf & Hf' & Hu & Hfu & Hu' & Hfu'). unfold pinv.
+  intros (Hq & Hf & Hf' & Hu & Hfu & Hu' & Hfu'). unfold phi_inv.
   split; [lia|]. split; [lia|]. split; [lia|]. split; [lia|]. split; [|split; [lia|]].
   - replace (2 * (2 * q) - l') with (4 * q - l') by ring. exact Hfu'.
   - pose proof (cross_le f f' (2 * q - l) (4 * q - l') Hf Hf' Hu Hu' Hfu Hfu') as Hx.
@@ -41,7 +41,7 @@ Lemma phi_count_S fu n f l f' l' :
 Proof. reflexivity. Qed.
 
 Lemma phi_count_lower : forall k fu n q f l f' l',
-  pinv q f l f' l' -> q * 2 ^ Z.of_nat k <= n -> (k <= fu)%nat ->
+  phi_inv q f l f' l' -> q * 2 ^ Z.of_nat k <= n -> (k <= fu)%nat ->
   (k <= phi_count fu n f l f' l')%nat.
 Proof.
   induction k as [|k IH]; intros fu n q f l f' l' Hinv Hn Hfu; [lia|].
@@ -54,7 +54,7 @@ Proof.
   assert (H2 : 5 * f' * f' <= (2 * n - l') * (2 * n - l')).
   { etransitivity; [exact Hfu'|]. apply Z.square_le_mono_nonneg; nia. }
   apply Z.leb_le in H1. apply Z.leb_le in H2. rewrite H1, H2. cbn [andb].
-  apply le_n_S. apply IH with (q := 2 * q); [now apply pinv_step | nia | lia].
+  apply le_n_S. apply IH with (q := 2 * q); [now apply phi_inv_step | nia | lia].
 Qed.
 
 Theorem maxdeg_ok : forall d n : nat, (2 ^ d <= n)%nat -> (d < max_degree n)%nat.
@@ -65,7 +65,7 @@ Proof.
   assert (Hpos : 0 < Z.of_nat n).
   { assert (0 < 2 ^ Z.of_nat d) by (apply Z.pow_pos_nonneg; lia). lia. }
   apply phi_count_lower with (q := 1).
-  - unfold pinv. lia.
+  - unfold phi_inv. lia.
   - lia.
   - apply Z.log2_le_pow2 in Hz; [|exact Hpos]. lia.
 Qed.
